@@ -416,6 +416,7 @@ theorem fdtCompleted_silent (L : I.Law) (toi : Nat) (s s' : State σ) (id : Nat)
         simp only [Except.ok.injEq, Prod.mk.injEq] at h
         obtain ⟨rfl, _, rfl⟩ := h
         have he0 : Silent toi e0 := by
+          unfold fdtCb at hcb
           split at hcb
           · split at hcb
             · injection hcb with hcb; subst hcb; intro e hm; simp at hm
@@ -773,6 +774,7 @@ theorem fdtCompleted_na (L : I.Law) (toi : Nat) (s s' : State σ) (id : Nat) (no
       simp only [Except.ok.injEq, Prod.mk.injEq] at h
       obtain ⟨_, _, rfl⟩ := h
       have he0 : NoAttach e0 := by
+        unfold fdtCb at hcb
         split at hcb
         · split at hcb
           · injection hcb with hcb; subst hcb; intro t i hm; simp at hm
